@@ -454,6 +454,13 @@ def probes(r):
     return out
 
 
+def _extras(o):
+    """everything else the library keeps ON the object, abstracted to 'name: empty / filled': two states that differ in a remembered value
+    (a cache) are not the same state, whatever the public view says"""
+    d = getattr(o, "__dict__", None) or {}
+    return tuple(sorted((k, d[k] is not None) for k in d if isinstance(k, str) and k not in ("_values", "_axes", "_attrs", "_indexing", "_monotonic", "axes", "name", "_name", "_tol")))
+
+
 def hidden(regs):
     sig = []
     ids = {}
@@ -467,9 +474,10 @@ def hidden(regs):
             for o in objs:
                 ids.setdefault(id(o), len(ids))
             row.append((ids[id(ax)], tuple(ids[id(m)] for m in ax.axes) if isinstance(ax, MultiAxis) else None,
-                        getattr(ax, "_monotonic", None), (ax._values is None) if isinstance(ax, MultiAxis) else None))
+                        getattr(ax, "_monotonic", None), (ax._values is None) if isinstance(ax, MultiAxis) else None,
+                        _extras(ax)))
         ids.setdefault(id(r.axes), len(ids))
-        sig.append((tuple(row), ids[id(r.axes)], r._indexing))
+        sig.append((tuple(row), ids[id(r.axes)], r._indexing, _extras(r), _extras(r.axes)))
     return tuple(sig)
 
 
@@ -545,6 +553,8 @@ class Space(object):
                     return bad("after {}: the dimensions were to be renamed to {} but are {}".format(hist[1:], res["dims"], tuple(src.dims)))
             if last:
                 changed = (tuple(common.snap(r) if isinstance(r, DimArray) else None for r in regs), hidden(regs)) != pre
+        # the state is identified BEFORE the probes below run: they are queries themselves and fill the same caches the histories are about
+        state_canon = common.digest((tuple(common.snap(r) if isinstance(r, DimArray) else None for r in regs), hidden(regs)))
         # every register must answer like a freshly constructed twin
         for i, r in enumerate(regs):
             if not isinstance(r, DimArray):
@@ -578,8 +588,7 @@ class Space(object):
         if isinstance(sm, Raised) or py(sm.axes[0].values) != [10, 20, 50, 60] or not common.same_values(sm.values, np.array([np.nan, 12., 23., np.nan])):
             return bad("after {}: two freshly built arrays labelled [10, 20, 50] and [20, 50, 60] add up to {} instead of labels [10, 20, 50, 60] "
                        "values [nan, 12, 23, nan]".format(hist[1:], common.describe(sm)))
-        canon = common.digest((tuple(common.snap(r) if isinstance(r, DimArray) else None for r in regs), hidden(regs)))
-        return ok(hist[-1][0], changed, canon=canon)
+        return ok(hist[-1][0], changed, canon=state_canon)
 
 
 SPACES = {"hist": Space()}
